@@ -41,8 +41,8 @@ ASSUMPTIONS = [
     "section options (`section (1; a=b)`) are accepted by BDParser on purpose (the HAB command files use them) although elf2sb.md calls them unsupported; they are not part of the unsupported list",
     "BD text is LF-terminated (nxpimage reads BD files in text mode); CR characters are not generated",
 ]
-FLOORS = {"has_operator": 0.30, "multi_statement": 0.15, "kind:fill": 0.05, "kind:load": 0.08, "stmt:erase": 0.05, "several_per_line": 0.03,
-          "has_comment": 0.10, "op:*": 0.03, "ident_ref": 0.10, "unsupported": 0.04}
+FLOORS = {"has_operator": 0.15, "multi_statement": 0.075, "kind:fill": 0.025, "kind:load": 0.04, "stmt:erase": 0.025, "several_per_line": 0.015,
+          "has_comment": 0.05, "op:*": 0.015, "ident_ref": 0.05, "unsupported": 0.02}
 
 RISKY = ("multi_quote_line", "multi_apos_line")
 _STATE: dict = {}
